@@ -117,6 +117,7 @@ func loadEngine(repo, verifDir string) (*Engine, error) {
 	}
 	e.scanGlobals()
 	e.resolveImmutable()
+	e.resolveUFs()
 	return e, nil
 }
 
@@ -1090,6 +1091,75 @@ func (e *Engine) funcFieldSig(key string) *types.Signature {
 				if sig, ok := deref(fv.Type()).Underlying().(*types.Signature); ok {
 					return sig
 				}
+			}
+		}
+	}
+	return nil
+}
+
+// resolveUFs registers the uninterpreted specification functions declared with `uf`.
+func (e *Engine) resolveUFs() {
+	for _, d := range e.specs.UFs {
+		pkg := e.pkgByName(d.Pkg)
+		if pkg == nil {
+			pkg = e.rootPkg()
+		}
+		u := &specUF{name: "uf$" + d.Name}
+		ok := true
+		for _, a := range d.Args {
+			t := e.resolveType(pkg, a)
+			if t == nil {
+				ok = false
+			}
+			u.args = append(u.args, t)
+		}
+		u.result = e.resolveType(pkg, d.Result)
+		if !ok || u.result == nil {
+			e.specs.Errors = append(e.specs.Errors, fmt.Sprintf("%s:%d: uf %s: unknown type", d.File, d.Line, d.Name))
+			continue
+		}
+		uu := u
+		u.decl = func(un *Universe) string {
+			var as []string
+			for _, t := range uu.args {
+				as = append(as, un.sortOf(t))
+			}
+			return fmt.Sprintf("(declare-fun %s (%s) %s)", uu.name, strings.Join(as, " "), un.sortOf(uu.result))
+		}
+		e.specUFs[d.Name] = u
+	}
+}
+
+// resolveType resolves a type expression in the scope of a package.
+func (e *Engine) resolveType(pkg *types.Package, x ast.Expr) types.Type {
+	switch t := x.(type) {
+	case *ast.Ident:
+		if b := types.Universe.Lookup(t.Name); b != nil {
+			if tn, ok := b.(*types.TypeName); ok {
+				return tn.Type()
+			}
+		}
+		if pkg != nil {
+			if obj, ok := pkg.Scope().Lookup(t.Name).(*types.TypeName); ok {
+				return obj.Type()
+			}
+		}
+	case *ast.StarExpr:
+		if in := e.resolveType(pkg, t.X); in != nil {
+			return types.NewPointer(in)
+		}
+	case *ast.SelectorExpr:
+		if id, ok := t.X.(*ast.Ident); ok {
+			if p := e.pkgByName(id.Name); p != nil {
+				if obj, ok := p.Scope().Lookup(t.Sel.Name).(*types.TypeName); ok {
+					return obj.Type()
+				}
+			}
+		}
+	case *ast.ArrayType:
+		if t.Len == nil {
+			if in := e.resolveType(pkg, t.Elt); in != nil {
+				return types.NewSlice(in)
 			}
 		}
 	}
